@@ -130,3 +130,272 @@ let () =
                 | _ -> "unspecified") in
       r3 m sp (posl s && sp <> "unspecified")
     | _ -> failwith "pad_ix")
+
+(* =================================================================== part 2: the remaining routines *)
+let zero = Z0
+let one = zi 1
+let nth l k = List.nth l k
+let set_nth_ k v l = List.mapi (fun j x -> if j = k then v else x) l
+let drop_nth k l = List.filteri (fun j _ -> j <> k) l
+let np_ax a d = match np_axis a d with Some k -> Some (int_of_nat k) | None -> None
+let valid_ax a d = Z.leb (Z.opp d) a && Z.ltb a d
+let float_str n q = Printf.sprintf "%.17g" (float_of_int (iz n) /. float_of_int (iz q))
+let show_parts l = String.concat " | " l
+let operand_get sa da sb db = function
+  | OpLeft j -> get sa da j | OpRight j -> get sb db j | OpNeither -> raise Oob
+
+(* ------------------------------------------------------------------ take / compress *)
+let take_case s d ind ax =
+  match ax with
+  | None ->
+    let m = build (shape_take_none ind) (fun i -> sel s d (take_none_index s ind i)) in
+    let sp = (try build (np_take_none_shape ind) (fun i -> getflat d (some_or_unspec (np_take_none_flat s ind (List.hd i))))
+              with Not_found -> "unspecified") in
+    r3 m sp (posl s && List.for_all (fun x -> Z.leb zero x && Z.ltb x (prod s)) ind)
+  | Some a ->
+    let m = build (shape_take_axis s ind a) (fun i -> sel s d (take_axis_index ind i a)) in
+    let sp = spec_build (np_take_axis_shape s ind a) (fun i -> sel s d (some_or_unspec (np_take_axis_index s ind i a))) in
+    let okd = in_axis a (len s) && (let n = nth s (iz a) in List.for_all (fun x -> Z.leb zero x && Z.ltb x n) ind) in
+    r3 m sp (posl s && okd)
+let compress_case c s d ax =
+  let pos_ = np_true_positions c in
+  match ax with
+  | None ->
+    let m = build (shape_compress_none c) (fun i -> sel s d (compress_none_index s c i)) in
+    let sp = if List.exists (fun x -> Z.leb (prod s) x) pos_ then "unspecified" else
+        build [len pos_] (fun i -> getflat d (nth pos_ (iz (List.hd i)))) in
+    r3 m sp (posl s && sp <> "unspecified")
+  | Some a ->
+    let m = build (shape_compress_axis s c a) (fun i -> sel s d (compress_axis_index c i a)) in
+    let sp = (match np_ax a (len s) with
+        | Some k when not (List.exists (fun x -> Z.leb (nth s k) x) pos_) ->
+          build (set_nth_ k (len pos_) s) (fun i -> sel s d (set_nth_ k (nth pos_ (iz (nth i k))) i))
+        | _ -> "unspecified") in
+    r3 m sp (posl s && in_axis a (len s) && sp <> "unspecified")
+
+(* ------------------------------------------------------------------ resize / expand *)
+let resize_case s d dst =
+  let m = outcome_view (shape_resize s dst) (fun i -> sel s d (resize_index i s dst)) in
+  let sp = spec_build (doc_resize_shape s dst) (fun i -> sel s d (doc_resize_index s dst i)) in
+  r3 m sp (posl s && sp <> "unspecified")
+let expand_case s d axes sp_ =
+  let m = outcome_view (shape_expand s axes sp_) (fun i -> opt_or_fill s d (expand_index s i axes sp_)) in
+  let dl = len s in
+  let ok = List.for_all (fun a -> valid_ax a dl) axes && nodup (List.map (norm_ax dl) axes)
+           && List.length axes = List.length sp_ && List.for_all (fun q -> Z.leb zero q) sp_ in
+  let sp = if not ok then "unspecified" else begin
+      let shape = List.fold_left2 (fun sh a q -> some_or_unspec (doc_expand_shape1 sh a q)) s axes sp_ in
+      build shape (fun i ->
+          let r = List.fold_left2 (fun acc a q -> match acc with
+              | None -> None
+              | Some j -> (match doc_expand_index1 j a q with Some r -> r | None -> raise Not_found)) (Some i) axes sp_ in
+          opt_or_fill s d r) end in
+  r3 m sp (posl s && ok && List.length axes = 1)
+
+(* ------------------------------------------------------------------ concatenate / stack family *)
+let concat_case sa da sb db ax =
+  match ax with
+  | None ->
+    let m = build (shape_concat_none sa sb) (fun i -> operand_get sa da sb db (concat_none_index sa sb i)) in
+    let sp = build (np_concat_none_shape sa sb) (fun i ->
+        let (right, k) = np_concat_none_flat sa (List.hd i) in getflat (if right then db else da) k) in
+    r3 m sp (posl sa && posl sb)
+  | Some a ->
+    let m = outcome_view (shape_concat_axis sa sb a) (fun i -> operand_get sa da sb db (concat_axis_index sa sb i a)) in
+    let sp = spec_build (np_concat_axis_shape sa sb a) (fun i -> operand_get sa da sb db (np_concat_axis_index sa i a)) in
+    r3 m sp (posl sa && posl sb && in_axis a (len sa) && sp <> "unspecified")
+(* joined views: both operands reshaped (ra, rb) then concatenated along [axis] (model), NumPy: the reshapes only insert
+   axes of extent 1, the element of a reshaped operand at j is its flat element number horner(j) *)
+let joined_case sa da sb db ra rb axis np_axis_ =
+  let m = outcome_view (joined_shape ra rb axis) (fun i -> operand_get sa da sb db (joined_index sa sb ra rb i axis)) in
+  let sp = spec_build (np_concat_axis_shape ra rb np_axis_) (fun i ->
+      match np_concat_axis_index ra i np_axis_ with
+      | OpLeft j -> getflat da (horner Z0 j ra) | OpRight j -> getflat db (horner Z0 j rb) | OpNeither -> raise Not_found) in
+  r3 m sp false
+let val_or s = function Val x -> x | _ -> s
+
+(* ------------------------------------------------------------------ split *)
+let split_model s d parts =
+  show_parts (List.map (fun p -> build (part_shape p) (fun i -> sel s d (part_index p i))) parts)
+let split_spec s d ax bounds =      (* bounds: list of (lo, hi) along the normalised axis *)
+  show_parts (List.map (fun (lo, hi) ->
+      build (set_nth_ ax (Z.sub hi lo) s) (fun i -> sel s d (set_nth_ ax (Z.add (nth i ax) lo) i))) bounds)
+
+(* ------------------------------------------------------------------ sliding window *)
+let sw_case s d win axes =
+  let dl = len s in
+  let m = (match axes with
+      | None -> build (shape_sliding_window_none s win) (fun i -> sel s d (sliding_window_none_index (nat_of_int (List.length s)) i))
+      | Some ax -> outcome_view (shape_sliding_window_axes s win ax) (fun i -> sel s d (sliding_window_axes_index (nat_of_int (List.length s)) i ax))) in
+  let ax = (match axes with None -> List.mapi (fun j _ -> zi j) s | Some ax -> ax) in
+  let ok = List.length ax = List.length win && List.for_all (fun a -> valid_ax a dl) ax && List.for_all (fun w -> Z.leb one w) win in
+  let sp = if not ok then "unspecified" else begin
+      let shp = np_sw_shape s win ax in
+      if List.exists (fun x -> Z.ltb x one) shp then "unspecified"
+      else build shp (fun i -> sel s d (np_sw_index (nat_of_int (List.length s)) i ax)) end in
+  r3 m sp (posl s && sp <> "unspecified" && nodup (List.map (norm_ax dl) ax))
+
+(* ------------------------------------------------------------------ diagonal, diagflat, tril, triu *)
+let diagonal_case s d off a1 a2 =
+  let dn = nat_of_int (List.length s) in
+  let m = (match normalize_axis a1 (len s), normalize_axis a2 (len s) with
+      | Some n1, Some n2 -> outcome_view (shape_diagonal s off a1 a2) (fun i -> sel s d (diagonal_index dn i off n1 n2))
+      | _ -> "trap") in
+  let sp = spec_build (np_diagonal_shape s off a1 a2) (fun i -> sel s d (some_or_unspec (np_diagonal_index dn i off a1 a2))) in
+  r3 m sp (posl s && sp <> "unspecified" && Z.leb zero off)
+let diagflat_case s d k =
+  let n = prod s in
+  let shp = shape_diagflat n k in
+  let m = build shp (fun i -> match diagflat_index i k with Some j -> getflat d (List.hd j) | None -> zero) in
+  let sp = build [Z.add n (Z.abs k); Z.add n (Z.abs k)] (fun i -> match np_diagflat_index i k with Some j -> getflat d j | None -> zero) in
+  r3 m sp (posl s)
+let tri_like_case lower s d k =
+  let shp = shape_tri_like s in
+  let m = build shp (fun i -> match (if lower then tril_index s i k else triu_index s i k) with Some j -> sel s d j | None -> zero) in
+  let sp = build (match s with [n] -> [n; n] | _ -> s) (fun i ->
+      if (if lower then np_tril_keep i k else np_triu_keep i k) then sel s d (np_tri_source s i) else zero) in
+  r3 m sp (posl s)
+
+(* ------------------------------------------------------------------ where *)
+let where_case sc dc sx dx sy dy =
+  let m = (match where_shape sc sx sy with
+      | Some dshape -> build dshape (fun i -> operand_get sx dx sy dy (where_index sc sx sy (fun j -> get sc dc j) i))
+      | None -> "nothing") in
+  let sp = (match Broadcast.np_broadcast_n [sc; sx; sy] with
+      | Some dshape -> build dshape (fun i ->
+          if Z.eqb (get sc dc (Broadcast.np_broadcast_to_idx sc i)) zero then get sy dy (Broadcast.np_broadcast_to_idx sy i)
+          else get sx dx (Broadcast.np_broadcast_to_idx sx i))
+      | None -> "unspecified") in
+  r3 m sp false
+
+let arr2 f = function [a; b] -> let (sa, da) = getA a and (sb, db) = getA b in f sa da sb db | _ -> failwith "two arrays"
+
+let () =
+  let take_h = function [_; a; ind; ax] | [a; ind; ax] -> let (s, d) = getA a in take_case s d (getL ind) (axis_arg ax) | _ -> failwith "take" in
+  register "take" take_h; register "take_e" take_h;
+  register "take_ix" (function [_; s; ind; i; ax] -> let s = getL s and ind = getL ind and i = getL i and a = getI ax in
+      let dst = shape_take_axis s ind a in
+      let m = ix_out dst (idx_str (take_axis_index ind i a)) in
+      let sp = (match np_take_axis_shape s ind a, np_take_axis_index s ind i a with
+          | Some dd, Some j when inbb i dd -> ix_out dd (idx_str j) | _ -> "unspecified") in
+      r3 m sp (posl s && in_axis a (len s) && sp <> "unspecified" && List.for_all (fun x -> Z.leb zero x) ind)
+    | _ -> failwith "take_ix");
+  register "compress" (function [_; c; a; ax] -> let (s, d) = getA a in compress_case (getL c) s d (axis_arg ax) | _ -> failwith "compress");
+  register "compress_e" (function [c; a; ax] -> let (s, d) = getA a in compress_case (getL c) s d (axis_arg ax) | _ -> failwith "compress_e");
+  let resize_h = function [_; a; dst] | [a; dst] -> let (s, d) = getA a in resize_case s d (getL dst) | _ -> failwith "resize" in
+  register "resize" resize_h; register "resize_e" resize_h;
+  register "resize_ix" (function [_; s; dst; i] -> let s = getL s and dst = getL dst and i = getL i in
+      let m = (match shape_resize s dst with Val dd -> ix_out dd (idx_str (resize_index i s dst)) | Nothing -> "nothing" | Trap -> "trap") in
+      let sp = (match doc_resize_shape s dst with Some dd when inbb i dd -> ix_out dd (idx_str (doc_resize_index s dst i)) | _ -> "unspecified") in
+      r3 m sp (posl s && sp <> "unspecified")
+    | _ -> failwith "resize_ix");
+  register "expand" (function [_; a; ax; q] -> let (s, d) = getA a in expand_case s d [getI ax] [getI q] | _ -> failwith "expand");
+  register "expand_e" (function [a; ax; q] -> let (s, d) = getA a in expand_case s d [getI ax] [getI q] | _ -> failwith "expand_e");
+  register "expand_m" (function [_; a; ax; q] -> let (s, d) = getA a in expand_case s d (getL ax) (getL q) | _ -> failwith "expand_m");
+  register "concat" (function [_; a; b; ax] -> let (sa, da) = getA a and (sb, db) = getA b in concat_case sa da sb db (axis_arg ax) | _ -> failwith "concat");
+  register "concat_e" (function [a; b; ax] -> let (sa, da) = getA a and (sb, db) = getA b in concat_case sa da sb db (axis_arg ax) | _ -> failwith "concat_e");
+  register "concat_ix" (function [_; sa; sb; i; ax] -> let sa = getL sa and sb = getL sb and i = getL i and a = getI ax in
+      let show_op = function OpLeft j -> "a " ^ idx_str j | OpRight j -> "b " ^ idx_str j | OpNeither -> "neither" in
+      let m = (match shape_concat_axis sa sb a with Val dd -> ix_out dd (show_op (concat_axis_index sa sb i a)) | _ -> "nothing") in
+      let sp = (match np_concat_axis_shape sa sb a with Some dd when inbb i dd -> ix_out dd (show_op (np_concat_axis_index sa i a)) | _ -> "unspecified") in
+      r3 m sp (posl sa && posl sb && in_axis a (len sa) && sp <> "unspecified")
+    | _ -> failwith "concat_ix");
+  let stack_h = function [_; a; b; ax] | [a; b; ax] -> let (sa, da) = getA a and (sb, db) = getA b in
+      let ax = getI ax in
+      let ra = val_or sa (shape_expand_dims1 sa ax) and rb = val_or sb (shape_expand_dims1 sb ax) in
+      (* NumPy: both get a new axis at the normalised position *)
+      let r = joined_case sa da sb db ra rb ax ax in
+      if sa <> sb || not (valid_ax ax (Z.add (len sa) one)) then { r with spec = "unspecified" } else r
+    | _ -> failwith "stack" in
+  register "stack" stack_h; register "stack_e" stack_h;
+  register "hstack" (arr2 (fun sa da sb db -> let ax = hstack_axis sa in joined_case sa da sb db sa sb ax ax));
+  register "vstack" (arr2 (fun sa da sb db -> joined_case sa da sb db (shape_vstack sa) (shape_vstack sb) Z0 Z0));
+  register "dstack" (arr2 (fun sa da sb db -> joined_case sa da sb db (shape_dstack sa) (shape_dstack sb) (zi 2) (zi 2)));
+  register "column_stack" (arr2 (fun sa da sb db -> joined_case sa da sb db (shape_column_stack sa) (shape_column_stack sb) one one));
+  register "split" (function [a; n; ax] -> let (s, d) = getA a and n = getI n and ax = getI ax in
+      let m = split_model s d (split_sections_args s n ax) in
+      let sp = (match np_ax ax (len s) with
+          | Some k when Z.ltb zero n && Z.eqb (Z.modulo (nth s k) n) zero ->
+            let w = Z.div (nth s k) n in
+            split_spec s d k (List.init (iz n) (fun j -> (Z.mul (zi j) w, Z.mul (zi (j + 1)) w)))
+          | _ -> "unspecified") in
+      r3 m sp false
+    | _ -> failwith "split");
+  register "split_l" (function [_; a; idx; ax] -> let (s, d) = getA a and idx = getL idx and ax = getI ax in
+      let m = split_model s d (split_indices_args s idx ax) in
+      let sp = (match np_ax ax (len s) with
+          | Some k ->
+            let n = nth s k in
+            let sorted = List.for_all2 (fun x y -> Z.ltb x y) (zero :: idx) (idx @ [n]) in    (* strictly increasing inside (0, n): no empty part *)
+            if not sorted then "unspecified" else
+              split_spec s d k (List.map2 (fun lo hi -> (lo, hi)) (zero :: idx) (idx @ [n]))
+          | None -> "unspecified") in
+      r3 m sp false
+    | _ -> failwith "split_l");
+  register "sw" (function [_; a; w; ax] -> let (s, d) = getA a in sw_case s d (getL w) (match ax with N -> None | x -> Some (getL x)) | _ -> failwith "sw");
+  register "sw1" (function [_; a; w; ax] -> let (s, d) = getA a in
+      (match ax with
+       | N -> let r = sw_case s d (List.map (fun _ -> getI w) s) None in
+         (* one number with axis=None: NumPy accepts it for 1-d sources only; the C++ appends ONE window axis *)
+         if List.length s = 1 then r else
+           { model = build (sw_none_shape s (List.map (fun _ -> getI w) s) @ [getI w]) (fun i -> sel s d (sliding_window_none_index (nat_of_int (List.length s)) i));
+             spec = "unspecified"; dom = false }
+       | x -> sw_case s d [getI w] (Some [getI x]))
+    | _ -> failwith "sw1");
+  register "sw_e" (function [a; w; ax] -> let (s, d) = getA a in sw_case s d (getL w) (Some (getL ax)) | _ -> failwith "sw_e");
+  register "sw_ix" (function [_; s; w; ax; i] -> let s = getL s and w = getL w and ax = getL ax and i = getL i in
+      let dn = nat_of_int (List.length s) in
+      let m = (match shape_sliding_window_axes s w ax with Val dd -> ix_out dd (idx_str (sliding_window_axes_index dn i ax)) | _ -> "trap") in
+      let ok = List.length ax = List.length w && List.for_all (fun a -> valid_ax a (len s)) ax in
+      let sp = if not ok then "unspecified" else
+          (let dd = np_sw_shape s w ax in if inbb i dd then ix_out dd (idx_str (np_sw_index dn i ax)) else "unspecified") in
+      r3 m sp (posl s && sp <> "unspecified" && nodup (List.map (norm_ax (len s)) ax))
+    | _ -> failwith "sw_ix");
+  let diag_h = function [_; a; off; a1; a2] | [a; off; a1; a2] -> let (s, d) = getA a in diagonal_case s d (getI off) (getI a1) (getI a2) | _ -> failwith "diagonal" in
+  register "diagonal" diag_h; register "diagonal_e" diag_h;
+  register "diagflat" (function [a; k] -> let (s, d) = getA a in diagflat_case s d (getI k) | _ -> failwith "diagflat");
+  let tril_h = function [_; a; k] | [a; k] -> let (s, d) = getA a in tri_like_case true s d (getI k) | _ -> failwith "tril" in
+  let triu_h = function [_; a; k] | [a; k] -> let (s, d) = getA a in tri_like_case false s d (getI k) | _ -> failwith "triu" in
+  register "tril" tril_h; register "tril_e" tril_h; register "triu" triu_h; register "triu_e" triu_h;
+  let where_h = function [c; x; y] -> let (sc, dc) = getA c and (sx, dx) = getA x and (sy, dy) = getA y in where_case sc dc sx dx sy dy | _ -> failwith "where" in
+  register "where" where_h; register "where_e" where_h;
+  (* generators *)
+  let gen2 n m k one_if =
+    let shp = [n; m] in
+    let m_ = build shp (fun i -> if one_if i k then one else zero) in
+    m_ in
+  let mcols = function N -> None | x -> Some (getI x) in
+  register "tri" (function [n; m; k] -> let n = getI n and k = getI k in let m = (match mcols m with Some m -> m | None -> n) in
+      r3 (gen2 n m k tri_is_one) (build [n; m] (fun i -> if Z.leb (nth i 1) (Z.add (nth i 0) k) then one else zero)) (Z.leb one n && Z.leb one m)
+    | _ -> failwith "tri");
+  let eye_h = function [n; m; k] -> let n = getI n and k = getI k in let m = (match mcols m with Some m -> m | None -> n) in
+      r3 (gen2 n m k eye_is_one) (build [n; m] (fun i -> if Z.eqb (Z.sub (nth i 1) (nth i 0)) k then one else zero)) (Z.leb one n && Z.leb one m)
+    | _ -> failwith "eye" in
+  register "eye" eye_h; register "eye_e" eye_h;
+  register "identity" (function [n] -> eye_h [n; N; I Z0] | _ -> failwith "identity");
+  let const_h v shp = both (build shp (fun _ -> v)) (posl shp) in
+  register "full" (function [_; shp; v] -> const_h (getI v) (getL shp) | _ -> failwith "full");
+  register "zeros" (function [_; shp] -> const_h zero (getL shp) | _ -> failwith "zeros");
+  register "ones" (function [_; shp] -> const_h one (getL shp) | _ -> failwith "ones");
+  register "full_like" (function [a; v] -> const_h (getI v) (fst (getA a)) | _ -> failwith "full_like");
+  register "zeros_like" (function [a] -> const_h zero (fst (getA a)) | _ -> failwith "zeros_like");
+  register "ones_like" (function [a] -> const_h one (fst (getA a)) | _ -> failwith "ones_like");
+  let arange_h start stop p q =
+    let show_elems n f = "ok " ^ string_of_z n ^ " ;" ^ (if Z.eqb n zero then "" else " " ^ String.concat "," (List.init (iz n) f)) in
+    let el i = float_str (arange_elem start p q (zi i)) q in
+    let m = (match arange_len start stop p q with Val n -> show_elems n el | _ -> "trap") in
+    let sp = if Z.eqb p zero then "unspecified" else
+        (let num = Z.mul (Z.sub stop start) q in
+         let n = Z.max zero (Z.opp (Z.div (Z.opp num) p)) in show_elems n el) in
+    r3 m sp (not (Z.eqb p zero) && Z.leb zero (Z.mul (Z.mul (Z.sub stop start) q) p)) in
+  register "arange" (function [a; b; p; q] -> arange_h (getI a) (getI b) (getI p) (getI q) | _ -> failwith "arange");
+  register "arange_e" (function [a; b; p] -> arange_h (getI a) (getI b) (getI p) one | _ -> failwith "arange_e");
+  register "arange2" (function [a; b] -> arange_h (getI a) (getI b) one one | _ -> failwith "arange2");
+  register "arange1" (function [b] -> arange_h zero (getI b) one one | _ -> failwith "arange1");
+  register "linspace" (function [a; b; n; e] -> let a = getI a and b = getI b and n = getI n and e = not (Z.eqb (getI e) zero) in
+      let elems f = "ok " ^ string_of_z n ^ " ; " ^ String.concat "," (List.init (iz n) f) in
+      let m = elems (fun i -> let (nu, de) = linspace_elem a b n e (zi i) in if Z.eqb de zero then "nan" else float_str nu de) in
+      let sp = elems (fun i -> if Z.eqb n one then float_str a one else
+                        let dv = if e then Z.sub n one else n in float_str (Z.add (Z.mul a dv) (Z.mul (zi i) (Z.sub b a))) dv) in
+      r3 m sp (Z.leb one n && not (e && Z.eqb n one))
+    | _ -> failwith "linspace")
